@@ -212,6 +212,11 @@ def user_seq_stream(res, rng, n):
         marks = {}
         calls = []
         for n in splitting:
+            if n == 0:
+                c0 = sim.total_clks
+                sim.clk(0)          # an empty piece of the splitting: no edge, no state change
+                calls.append((0, sim.total_clks - c0, 0))
+                continue
             target = sim.total_clks + n
             guard = 0
             while sim.total_clks < target and guard < 4 * n + 8:
@@ -238,6 +243,8 @@ def user_seq_stream(res, rng, n):
                 k = r.randint(1, rest)
                 sp.append(k)
                 rest -= k
+                if r.chance(1, 4):
+                    sp.append(0)
             splits.append(sp)
         try:
             with contextlib.redirect_stdout(io.StringIO()):
@@ -252,6 +259,11 @@ def user_seq_stream(res, rng, n):
             bad = None
             for (asked, done, fired) in calls:
                 # a call with k >= 1 cycles simulates at least one edge, and all k of them unless stop() was requested DURING that call
+                if asked == 0:
+                    if done != 0:
+                        bad = f'a clk(0) call simulated {done} edges'
+                        break
+                    continue
                 if done < 1 or (fired == 0 and done != asked):
                     bad = (f'a clk({asked}) call simulated {done} edges although {fired} stop() requests were made during it '
                            '(a stop request was carried over to a later call, or cycles were lost)')
